@@ -43,7 +43,13 @@ Ids == { Pid1, VPid(NodeU, <<255,255,255,255>>, <<0,0,0,0>>, <<1,2,3,4>>, <<>>),
          VPort(Node1, <<0,0,0,0,255,255,255,255>>, <<255,255,255,255>>, <<0,0,0,0,0,0,0,0>>),
          VRef(Node1, <<0,0,0,2>>, <<<<0,0,0,1>>, <<0,0,0,2>>, <<0,0,0,3>>>>, <<>>), VRef(Node1, <<0,0,0,1>>, <<<<0,0,0,9>>>>, <<>>),
          VRef(Node1, <<0,0,0,1>>, <<>>, <<>>), VRef(NodeU, <<1,0,0,1>>, [i \in 1..5 |-> <<255,0,i,1>>], <<>>),
-         VRef(Node1, <<0,0,0,7>>, <<<<0,0,0,1>>, <<0,0,0,2>>>>, <<255,254,253,252,251,250,249,248>>) }
+         VRef(Node1, <<0,0,0,7>>, <<<<0,0,0,1>>, <<0,0,0,2>>>>, <<255,254,253,252,251,250,249,248>>),
+         \* field values beyond the widths of the pre-V4 identifiers (15-bit number, 13-bit serial, 28-bit port number, 2-bit creation, 18-bit
+         \* first reference word) with a creation that still fits one byte, so that the legacy tags are admissible encodings of them
+         VPid(Node1, <<255,255,255,255>>, <<255,255,255,255>>, <<0,0,0,3>>, <<>>), VPid(Node1, <<0,0,128,0>>, <<0,0,32,0>>, <<0,0,0,255>>, <<>>),
+         VPid(Node1, <<0,0,128,1>>, <<0,0,0,2>>, <<0,0,0,3>>, <<>>),
+         VPort(Node1, <<0,0,0,0,16,0,0,0>>, <<0,0,0,4>>, <<>>), VPort(Node1, <<0,0,0,0,255,255,255,255>>, <<0,0,0,255>>, <<>>),
+         VRef(Node1, <<0,0,0,255>>, <<<<255,255,255,255>>>>, <<>>), VRef(Node1, <<0,0,0,4>>, <<<<0,4,0,0>>, <<255,255,255,255>>, <<0,0,0,1>>>>, <<>>) }
        \cup WideIds
 Exports == { VExport(A(<<109>>), A(<<102>>), 3), VExport(A(<<195,169>>), A(<<>>), 255), VExport(A(Rep(97, 256)), A(<<102>>), 0) }
 Leaves == Ints \cup Floats \cup Atoms \cup Bins \cup Ids \cup Exports \cup {VNil}
